@@ -515,14 +515,18 @@ def run(prog, rep, tier):
     start_ = max(wds, key=lambda c: c.bb).target
     pde_bb = {c.bb: which(c) for c in pde}
     paths_ = decide.enumerate_paths(cb, start_, lambda bb: ("pde:%s" % pde_bb[bb]) if bb in pde_bb else ("ret" if cb.term(bb)[0] == "ret" else None), opaque_ok=lambda bb: True, max_paths=5000)
+    if any(d_[0] == "opaque" for p_ in paths_ for d_ in p_.decisions):
+        raise CheckerError("cli_process_args: a branch between the two peeks and the first resolution is not a test of the peeked kinds (evaluation-order idiom not recognised)")
     KINDS = ("plain", "Now", "Other")
     table = {}
     for ka in KINDS:
         for kb in KINDS:
             outs = set()
             for p_ in paths_:
-                ok_ = True
+                ok_ = decide.flags_consistent(cb, p_)
                 for d_ in p_.decisions:
+                    if not ok_:
+                        break
                     if d_[0] not in ("variant", "variant_not"):
                         continue
                     r_ = d_[1]
